@@ -526,6 +526,59 @@ theorem run_idx_le (self sess : Nat) (g : Group) (seats : List Nat) (evs : List 
     | recv x => exact hs
     | next => simp only [step]; split <;> simp_all [lastState] <;> omega
 
+/-! ## CanTransition -/
+
+theorem subset_of_nodup_length : ∀ (S T : List Nat), S.Nodup → (∀ x ∈ S, x ∈ T) →
+    T.length ≤ S.length → ∀ x ∈ T, x ∈ S
+  | [], T, _, _, hlen => by
+    have : T = [] := List.eq_nil_of_length_eq_zero (by simpa using hlen)
+    subst this; intro x hx; cases hx
+  | a :: S', T, hS, hsub, hlen => by
+    rw [List.nodup_cons] at hS
+    have haT : a ∈ T := hsub a (by simp)
+    have hlen' : (T.erase a).length ≤ S'.length := by
+      rw [List.length_erase_of_mem haT]; simp at hlen; omega
+    have hsub' : ∀ x ∈ S', x ∈ T.erase a := by
+      intro x hx
+      have hxa : x ≠ a := fun e => hS.1 (e ▸ hx)
+      exact (List.mem_erase_of_ne hxa).2 (hsub x (by simp [hx]))
+    have ih := subset_of_nodup_length S' (T.erase a) hS.2 hsub' hlen'
+    intro x hx
+    by_cases hxa : x = a
+    · simp [hxa]
+    · exact List.mem_cons_of_mem _ (ih x ((List.mem_erase_of_ne hxa).2 hx))
+
+/-- **CanTransition is exact**: when a state that awaits messages of kind `k` reports
+    `CanTransition`, every other operating member's message of that kind is in
+    `receivedMessages` — duplicates never make up for a missing member. -/
+theorem canTransition_complete (n self sess : Nat) (excl seats : List Nat) (evs : List Ev)
+    (st k : Nat) (hk : kindOf st = some k)
+    (hself : self ∈ (memberGroup n self excl).operating)
+    (hcan : canTransition st (memberGroup n self excl)
+      (run self sess (memberGroup n self excl) seats evs).hist = true) :
+    ∀ m ∈ (memberGroup n self excl).operating, m ≠ self →
+      ∃ x ∈ received (run self sess (memberGroup n self excl) seats evs).hist k, x.sender = m := by
+  generalize hg : memberGroup n self excl = g at *
+  generalize hh : (run self sess g seats evs).hist = h at *
+  have hadm : ∀ x ∈ received h k, g.isOperating x.sender = true ∧ x.sender ≠ self := by
+    intro x hx
+    have := history_only_admitted self sess g seats evs x (hh ▸ (received_subset h k x hx).1)
+    exact ⟨this.2.2.2.1, this.2.1⟩
+  simp only [canTransition, hk, beq_iff_eq] at hcan
+  let S := (received h k).map (·.sender)
+  have hnd : (g.operating).Nodup :=
+    List.nodup_iff_pairwise_ne.2 ((operating_sorted g).imp (fun h => Nat.ne_of_lt h))
+  have hsub : ∀ x ∈ S, x ∈ g.operating.erase self := by
+    intro x hx
+    obtain ⟨y, hy, rfl⟩ := List.mem_map.1 hx
+    exact (List.mem_erase_of_ne (hadm y hy).2).2 ((mem_operating g _).2 (hadm y hy).1)
+  have hlen : (g.operating.erase self).length ≤ S.length := by
+    rw [List.length_erase_of_mem hself]; simp [S]; omega
+  have := subset_of_nodup_length S _ (received_senders_nodup h k) hsub hlen
+  intro m hm hms
+  obtain ⟨y, hy, e⟩ := List.mem_map.1 (this m ((List.mem_erase_of_ne hms).2 hm))
+  exact ⟨y, hy, e⟩
+
 /-! ## tss-lib as a parameter (assumption A-tss) -/
 
 /-- The functional behaviour of tss-lib key generation that the property relies on: the public key
